@@ -8,23 +8,28 @@ if TYPE_CHECKING:  # pragma: no cover
 
 
 def prepare_text_for_dbml(text: str) -> str:
-    '''Escape single quotes'''
+    '''Escape backslashes and single quotes (for a triple-quoted literal)'''
     pattern = re.compile(r"('''|')")
-    return pattern.sub(r'\\\1', text)
+    return pattern.sub(r'\\\1', text.replace('\\', '\\\\'))
+
+
+def prepare_line_for_dbml(text: str) -> str:
+    '''Escape backslashes and every single quote (for a single-quoted literal)'''
+    return text.replace('\\', '\\\\').replace("'", "\\'")
 
 
 def quote_string(text: str) -> str:
     if '\n' in text:
         return f"'''\n{prepare_text_for_dbml(text)}'''"
     else:
-        return f"'{prepare_text_for_dbml(text)}'"
+        return f"'{prepare_line_for_dbml(text)}'"
 
 
 def note_option_to_dbml(note: 'Note') -> str:
     if '\n' in note.text:
         return f"note: '''{prepare_text_for_dbml(note.text)}'''"
     else:
-        return f"note: '{prepare_text_for_dbml(note.text)}'"
+        return f"note: '{prepare_line_for_dbml(note.text)}'"
 
 
 def comment_to_dbml(val: str) -> str:
